@@ -128,6 +128,22 @@ static int cond_do_op(int idx, op_t* op) {
     }
     return 1;
   }
+  if (!strcmp(op->name, "ctrylock")) {
+    // a fiber that polls the condition's mutex with trylock (a times, yielding in between); a success is a short critical section
+    for (int i = 0; i < (op->a > 0 ? op->a : 1); i++) {
+      g_nb_enter(idx);
+      int r = fiber_mutex_trylock(&cm);
+      g_nb_exit(idx);
+      if (r == FIBER_SUCCESS) {
+        gc_m_acq(idx);
+        if (op->b) rt_work(idx, op->b);
+        gc_m_rel(idx);
+        fiber_mutex_unlock(&cm);
+      }
+      fiber_yield();
+    }
+    return 1;
+  }
   if (!strcmp(op->name, "csignal") || !strcmp(op->name, "cbcast")) {
     int held = op->a;
     int bc = op->name[1] == 'b';
@@ -199,7 +215,7 @@ static int j_success[MAX_FIBERS], j_detached[MAX_FIBERS], j_detach_begun[MAX_FIB
 static int j_in_join[MAX_FIBERS];  // fiber idx is inside fiber_join on target (value = target+1)
 static int j_overlap, j_joiner_first, j_target_first, j_try_fail;
 
-#define TOKEN(i) ((void*)(intptr_t)(0x1000 + (i)))
+#define TOKEN(i) rt_token(i)
 
 GHOST static void gj_result(int idx, int target, int r, void* res, int via_try, int mode) {
   vs_rt_enter();
